@@ -197,9 +197,13 @@ def h_shift(e, cfg):
         e.oblige_eq("shift:synspike", D.synspike, ss, split=True, step=t)
 
 def checks(tier):
-    th = tier == "thorough"
+    full = tier == "thorough"
     cfgs = []
     for kind in ("dense", "direct", "lateral", "conv"):
+        # the thorough tier widens the symbolic-delay grid for the dense and direct connections only (measured: with every connection
+        # type widened a handful of conv / double-exponential configurations run for more than 40 minutes each); the concrete-delay,
+        # re-assignment and geometry variants below are widened for all types
+        th = full and kind in ("dense", "direct")
         for syn in SYN:
             for dt in (1.0, 1.3):
                 for mmul in ((1, 2, 3) if th else (2,)):
@@ -217,6 +221,7 @@ def checks(tier):
                                 if syn == "delta" or th:
                                     # two input channels: the (c kh kw) order of the per-synapse delays / unfolded patches
                                     cfgs.append(dict(kind=kind, syn=syn, dt=dt, max=mmul * dt, delays=delays, B=B, bias=False, T=(3 if th else 2), geom=(2, 2, 1, 2, 2)))
+    th = full
     # delays re-assigned after the connection has been stepped
     for kind in ("dense", "direct", "lateral", "conv"):
         for syn in (("delta", "single") if th else ("delta",)):
@@ -237,6 +242,7 @@ def checks(tier):
 BOUNDS = {
     "quick": {"connections": ["dense 2->2", "direct 2", "lateral 2", "conv 1x2x2 k(1,2) F=2; 1x2x3 k(2,2); 2x2x2 k(1,2) (two channels)"], "synapses": 5, "dt": [1.0, 1.3], "max delay": "2dt",
               "delay tensor": "symbolic per synapse: any real in [0,max] / constrained to the grid / all zero; and concrete Python-float multiples k*dt (k <= 3, dt = 1.3) whose float32 quotient is an ulp off the integer", "steps": "3, then clear() and 2 more (grid/zero delays, and every dense configuration)", "batch": 1},
-    "thorough": {"max delay": ["dt", "2dt", "3dt"], "steps": "4, then clear() and 3 more", "batch": "1 (2 for dense)"},
+    "thorough": {"max delay": "dt, 2dt, 3dt for dense and direct connections (2dt for lateral and conv)", "steps": "4, then clear() and 3 more (dense, direct)", "batch": "1 (2 for dense)",
+                 "concrete delays": "(1.3, k<=7), (0.1, k<=3), (1.1, k<=5) for all four connection types and synapses"},
 }
 OUTSIDE = ["interpolation tolerance other than 0", "float32 snapping of delay/dt for SYMBOLIC delays (exact reals; grid points are k * float32(dt)) - concrete k*dt delays run through the real float32 index arithmetic"]
